@@ -91,6 +91,8 @@ package corebgp
 //@   let requesterWins = localDominant == (i == 0)
 //@   ghostvar killed bool = false
 //@   ghostvar gotOther bool = false
+//@   at call handleStateTransition#0 assert [pending_transition_of_the_other_fsm_is_handled_for_it] arg1 == 1 - i
+//@   at call handleStateTransition#1 assert [pending_transition_of_the_other_fsm_is_handled_for_it] arg1 == 1 - i
 //@   ghostvar closing bool = false
 //@   at select#0 case 0 set closing = true
 //@   at select#0 case 1 set killed = true
